@@ -31,9 +31,9 @@ def payoff_fn(case):
     return lambda x: n * max(k - x, 0.0) * df
 
 
-def expected_arrays(case, ledger, counts, level):
+def expected_arrays(case, ledger, counts, level, offsets=None):
     g = payoff_fn(case)
-    rows = ledger.samples.get(level, [])[: counts.get(level, 0)]
+    rows = ledger.samples.get(level, [])[(offsets or {}).get(level, 0): counts.get(level, 0)]
     f = np.array([g(a) for a, _ in rows], dtype=float)
     c = np.array([g(b) if level > 0 else 0.0 for _, b in rows], dtype=float)
     return f, c, rows
@@ -79,8 +79,9 @@ def check_record(case, rec):
         where = f"pass {pi} (levels {len(Nl) - 1})"
         price_ref, price_cv_ref, cv_ok = 0.0, 0.0, True
         stats = {k: [] for k in ("ml", "vl", "mean_level_l", "var_level_l", "kurtosis", "cl")}
+        mags = []  # magnitude of the samples of each level (round-off of the library's non-centred moment formulas)
         for l in range(len(Nl)):
-            f, c, rows = expected_arrays(case, led, counts, l)
+            f, c, rows = expected_arrays(case, led, counts, l, rec.get("offsets"))
             af, ac = snap["fine"][l], snap["coarse"][l]
             if len(rows) == 0:
                 out.append(Violation("C05/level-without-any-sample-in-the-results",
@@ -123,6 +124,11 @@ def check_record(case, rec):
                                              f"{where}: level {l}: adjusted samples {snap['fine_cv'][l][:3]} vs "
                                              f"textbook Y - b*(X - price_X) {adj_f[:3]}; {detail}"))
                         return out
+                    # the reported statistics are functions of the stored adjusted samples (just compared with the
+                    # textbook ones at 1e-7): recomputing them from the harness's own adjusted samples would amplify that
+                    # tolerance (4th central moment of tiny level corrections, ill-conditioned regressions on few samples)
+                    sf = np.asarray(snap["fine_cv"][l], dtype=float).ravel()
+                    sc_ = np.asarray(snap["coarse_cv"][l], dtype=float).ravel()
             if not cv_ok:
                 stats = None
                 continue
@@ -137,18 +143,24 @@ def check_record(case, rec):
             stats["var_level_l"].append(np.mean(sf ** 2) - sf.mean() ** 2)
             c4 = np.mean((d2 - m1) ** 4)
             stats["kurtosis"].append(c4 / max(1.0, np.mean(d2 ** 2) - m1 ** 2) ** 2)
+            mags.append(1.0 + max(float(np.abs(sf).max()), float(np.abs(sc_).max())))
             cost_l = law["cost0"] * 2.0 ** (law["gamma"] * l)
             stats["cl"].append(cost_l)
         scale = 1.0 + abs(price_ref) + abs(case["notional"]) * (abs(law["base"]) + law["s_base"])
         for k, ref in (stats or {}).items():
             got = snap["results"][k]
             ref = np.array(ref, dtype=float)
-            tol = 1e-9 * (scale ** (4 if k == "kurtosis" else 2)) if k != "cl" else 1e-9 * (1 + ref)
+            power = {"ml": 1, "mean_level_l": 1, "vl": 2, "var_level_l": 2, "kurtosis": 4}.get(k)
+            # moments are formed from non-centred sums: cancellation error ~ 1e-16 * n * magnitude^power per level (control
+            # variates with prices far from the controls' means shift the adjusted samples by hundreds)
+            tol = 1e-9 * (scale ** (4 if k == "kurtosis" else 2)) + 1e-11 * np.array(mags[:len(ref)]) ** power \
+                if k != "cl" else 1e-9 * (1 + ref)
             if got.shape != ref.shape or not np.all(np.abs(got - ref) <= tol + 1e-9 * np.abs(ref)):
                 out.append(Violation(f"C05/statistic-differs-from-the-samples/{k}",
                                      f"{where}: reported {got}, recomputed from the simulated samples {ref}; {detail}"))
                 return out
-        total_cost = sum(law["cost0"] * 2.0 ** (law["gamma"] * l) * counts.get(l, 0) for l in range(len(Nl)))
+        off = rec.get("offsets") or {}
+        total_cost = sum(law["cost0"] * 2.0 ** (law["gamma"] * l) * (counts.get(l, 0) - off.get(l, 0)) for l in range(len(Nl)))
         if abs(snap["cost"] - total_cost) > 1e-9 * (1 + total_cost):
             out.append(Violation("C05/total-cost", f"{where}: {snap['cost']} vs {total_cost}; {detail}"))
         if abs(snap["price_raw"] - price_ref) > 1e-9 * scale:
@@ -200,12 +212,21 @@ def body(case):
 
 def classify(case):
     labels = [case["mode"], f"rates={case['rates']}", f"controls={len(case['controls'])}", case["payoff"],
-              f"L0={case['initial_level']}"]
+              f"L0={case['initial_level']}", "engine-priced-before" if case.get("priced_before") else "first-pricing"]
     return labels, False  # non-triviality is decided by the body from the run's history
 
 
+@st.composite
+def _strat(draw, tier):
+    case = draw(mlmc_case(tier))
+    # a quarter of the runs are the *second* pricing on one Engine object (the first one, looser or tighter, is
+    # discarded): "all runs of the adaptive algorithm" includes those of an engine that has priced before
+    case["priced_before"] = draw(st.sampled_from([None, None, None, 0.4, 3.0]))
+    return case
+
+
 def strat(tier):
-    return mlmc_case(tier)
+    return _strat(tier)
 
 
 SUBCHECKS = [
